@@ -378,6 +378,8 @@ class DatasetWorld(object):
             return {"op": "query", "what": rng.choice(["mono", "mono", "repr", "var_mono"]), "dim": rng.choice(dims)}
         if what in ("set", "replace"):
             key = rng.choice(keys) if what == "replace" else rng.choice(KEYS)
+            if what != "replace" and dims and rng.random() < 0.06:
+                key = rng.choice(dims)      # a variable named like a dimension is a variable like any other
             # the same assignment spelled through the mutators Dataset inherits from dict
             via = rng.choice(["setitem"] * 5 + ["update_dict", "update_kw", "update_pairs", "ior", "setdefault"])
             return {"op": "set", "key": key, "spec": self._spec(rng), "via": via}
